@@ -267,6 +267,10 @@ type Request struct {
 	Info   *dnsserver.RequestInfo
 	Local  netip.AddrPort
 	Remote netip.AddrPort
+	// MappedRemote: an IPv4 remote address reaches the handler in its
+	// 16-octet form, as a socket listening on both families delivers it;
+	// RemoteUDP: as a *net.UDPAddr rather than a *net.TCPAddr.
+	MappedRemote, RemoteUDP bool
 	Msg    *dns.Msg
 
 	// Dispose makes Serve release the written response to the cloner after
@@ -398,6 +402,17 @@ func (w *World) Serve(ctx context.Context, r *Request) (out *Writer, err error) 
 		out.Local, out.Remote = net.UDPAddrFromAddrPort(local), net.UDPAddrFromAddrPort(r.Remote)
 	} else {
 		out.Local, out.Remote = net.TCPAddrFromAddrPort(local), net.TCPAddrFromAddrPort(r.Remote)
+	}
+	if r.RemoteUDP {
+		out.Remote = net.UDPAddrFromAddrPort(r.Remote)
+	}
+	if r.MappedRemote && r.Remote.Addr().Is4() {
+		ip16 := net.IP(r.Remote.Addr().AsSlice()).To16()
+		if r.RemoteUDP {
+			out.Remote = &net.UDPAddr{IP: ip16, Port: int(r.Remote.Port())}
+		} else {
+			out.Remote = &net.TCPAddr{IP: ip16, Port: int(r.Remote.Port())}
+		}
 	}
 
 	info := r.Info
